@@ -18,6 +18,7 @@ from pathlib import Path
 
 ROOT = Path(__file__).resolve().parent.parent
 REPO = "/repo"
+WT = None  # scratch worktree (default mode): the patch is applied there and the checks run with VERIF_REPO=<worktree>
 
 
 def sh(cmd, timeout=1800, env=None, cwd=None):
@@ -28,8 +29,8 @@ def sh(cmd, timeout=1800, env=None, cwd=None):
     return p.returncode, (p.stdout + p.stderr)
 
 
-def run_demo(demo):
-    rc, out = sh(f"timeout 600 /venv/bin/python {demo}", env={"PYTHONPATH": f"{REPO}/src:/tmp"})
+def run_demo(demo, repo=None):
+    rc, out = sh(f"timeout 600 /venv/bin/python {demo}", env={"PYTHONPATH": f"{repo or REPO}/src:/tmp"})
     return rc, out[-1500:]
 
 
@@ -42,9 +43,11 @@ def main():
             props = a.split("=", 1)[1].split(",")
         if a == "--no-baseline":
             baseline = False
-    rc, st = sh(f"git -C {REPO} status --porcelain")
-    if st.strip():
-        print("REPO NOT CLEAN:", st)
+    wt = f"/tmp/seedwt_{name}"
+    sh(f"git -C {REPO} worktree remove --force {wt}")
+    rc, st = sh(f"git -C {REPO} worktree add -q {wt} HEAD")
+    if rc != 0:
+        print("WORKTREE FAILED", st)
         return 2
     out_dir = ROOT / "seeded" / name
     out_dir.mkdir(parents=True, exist_ok=True)
@@ -53,34 +56,34 @@ def main():
     if (src / "notes.md").is_file():
         shutil.copy(src / "notes.md", out_dir / "notes.md")
     meta = {"name": name, "breaks_property": pid, "checked_properties": props, "ran": []}
-    rc0, o0 = run_demo(out_dir / "demo.py")
+    rc0, o0 = run_demo(out_dir / "demo.py", wt)
     meta["demo_unchanged"] = {"rc": rc0, "tail": o0[-400:]}
-    rc, out = sh(f"git -C {REPO} apply {out_dir / 'patch.diff'}")
+    meta["how"] = f"scratch worktree {wt} of /repo HEAD; git apply patch.diff there; checks run with VERIF_REPO={wt} (P-tier reads its src, B-tier imports it via PYTHONPATH); worktree removed afterwards"
+    rc, out = sh(f"git -C {wt} apply {out_dir / 'patch.diff'}")
     if rc != 0:
         meta["apply_error"] = out[-800:]
         json.dump(meta, open(out_dir / "meta.json", "w"), indent=1)
         print("APPLY FAILED", out[-400:])
         return 2
     try:
-        rc1, o1 = run_demo(out_dir / "demo.py")
+        rc1, o1 = run_demo(out_dir / "demo.py", wt)
         meta["demo_with_change"] = {"rc": rc1, "tail": o1[-400:]}
         if baseline:
-            rcb, ob = sh(f"cd {REPO} && timeout 1200 /venv/bin/python -m pytest -q -p no:cacheprovider --timeout=900 --continue-on-collection-errors 2>&1 | tail -1")
+            rcb, ob = sh(f"cd {wt} && timeout 1200 /venv/bin/python -m pytest -q -p no:cacheprovider --timeout=900 --continue-on-collection-errors 2>&1 | tail -1", env={"PYTHONPATH": f"{wt}/src"})
             m = re.search(r"(\d+) passed", ob)
             meta["baseline_passed"] = int(m.group(1)) if m else None
         results = {}
         for p in props:
             t0 = time.time()
-            rcc, oc = sh(f"cd {ROOT} && ./check {p} --tier quick", timeout=2400)
+            rcc, oc = sh(f"cd {ROOT} && ./check {p} --tier quick", timeout=2400, env={"VERIF_REPO": wt})
             lines = [ln for ln in oc.splitlines() if ln.startswith(("VIOLATION", "KNOWN-FINDING", "UNDECIDED", "CHECKER-ERROR", p + " tier="))]
             what = [ln.strip() for ln in oc.splitlines() if ln.strip().startswith("what:")]
             results[p] = {"exit": rcc, "wall_s": round(time.time() - t0, 1), "lines": lines[:12], "what": what[:6]}
-            meta["ran"].append(f"./check {p} --tier quick  -> exit {rcc}")
+            meta["ran"].append(f"VERIF_REPO={wt} ./check {p} --tier quick  -> exit {rcc}")
         meta["check_results"] = results
         meta["detected"] = any(r["exit"] == 1 for r in results.values())
     finally:
-        sh(f"git -C {REPO} checkout -- .")
-        sh(f"git -C {REPO} clean -fdq src tests")
+        sh(f"git -C {REPO} worktree remove --force {wt}")
     meta["confirmed_seed"] = (meta["demo_unchanged"]["rc"] == 0) and (meta.get("demo_with_change", {}).get("rc") not in (0, None)) and (meta.get("baseline_passed") in (66, None))
     json.dump(meta, open(out_dir / "meta.json", "w"), indent=1)
     print(json.dumps({k: meta[k] for k in ("name", "confirmed_seed", "detected", "baseline_passed") if k in meta}))
